@@ -229,6 +229,19 @@ def main():
             for L in (1, 2):
                 for lrus in _it.product(RAW_LRUS, repeat=L):
                     raw_history(col, cname, sa, list(lrus), CORE[:6])
+    # hierarchy through the trie: an entry stored for a site is found for the pages and subdomains below it (incl. a host that is a bare suffix)
+    for cname in CLASSES:
+        cls = CLASSES[cname][0]
+        for sa in (False, True):
+            for anc, desc in (("http://co.uk/", "http://a.co.uk/x"), ("http://lemonde.fr", "http://lemonde.fr/a/b"), ("http://lemonde.fr/a", "http://lemonde.fr/a/b?q=1#f"),
+                              ("http://blogspot.com", "http://x.blogspot.com/p"), ("http://lemonde.fr", "http://blog.lemonde.fr/")):
+                trie = cls(suffix_aware=sa)
+                r = call(trie.set, anc, "site")
+                col.count("match-descendant")
+                r = call(trie.match, desc)
+                if r != ("ok", "site"):
+                    col.violation("match-longest-stored-prefix", "ural.lru.trie.%s.match" % cname, {"class": cname, "suffix_aware": sa, "stored": anc, "query": desc}, repr(r), "site")
+                col.nontriv(("hier", cname, sa, anc))
     # one very deep entry (a URL with 1500 path segments): storing, matching and iterating must not depend on the recursion limit
     deep = ["s:http", "h:fr", "h:lemonde"] + ["p:%d" % j for j in range(1500)]
     for cname in CLASSES:
